@@ -17,4 +17,719 @@ def Op.Wf {β : Type} : Op β → Prop
   | .touch _ now => minTime ≤ now
   | _ => True
 
+/-! ### lists with unique keys -/
+
+def lookup (idx : List Entry) (k : Key) : Option Entry := idx.find? (fun e => e.key == k)
+
+theorem lookup_mem {idx : List Entry} {k : Key} {e : Entry} (h : lookup idx k = some e) : e ∈ idx ∧ e.key = k := by
+  unfold lookup at h
+  exact ⟨List.mem_of_find?_eq_some h, by have := List.find?_some h; simpa using this⟩
+
+theorem lookup_none {idx : List Entry} {k : Key} (h : lookup idx k = none) : ∀ e ∈ idx, e.key ≠ k := by
+  unfold lookup at h
+  intro e he hk
+  have := List.find?_eq_none.mp h e he
+  simp [hk] at this
+
+theorem lookup_filter (idx : List Entry) (k k' : Key) :
+    lookup (idx.filter (fun x => !(x.key == k))) k' = if k' = k then none else lookup idx k' := by
+  induction idx with
+  | nil => simp [lookup]
+  | cons a rest ih =>
+    unfold lookup at ih ⊢
+    rw [List.filter_cons]
+    by_cases hak : a.key = k
+    · have h1 : (!(a.key == k)) = false := by simp [hak]
+      rw [h1]
+      simp only [Bool.false_eq_true, if_false]
+      rw [ih]
+      by_cases hk' : k' = k
+      · simp [hk']
+      · have h2 : (a.key == k') = false := by
+          simp only [beq_eq_false_iff_ne, ne_eq]; rw [hak]; exact fun h => hk' h.symm
+        simp [hk', h2]
+    · have h1 : (!(a.key == k)) = true := by simp [hak]
+      rw [h1]
+      simp only [if_true]
+      rw [List.find?_cons, List.find?_cons]
+      by_cases hak' : a.key = k'
+      · have h3 : k' ≠ k := fun h => hak (hak'.trans h)
+        simp [hak', h3]
+      · have h2 : (a.key == k') = false := by simp [hak']
+        rw [h2]; exact ih
+
+theorem lookup_append_singleton (idx : List Entry) (e : Entry) (k' : Key) :
+    lookup (idx ++ [e]) k' = match lookup idx k' with | some x => some x | none => if e.key = k' then some e else none := by
+  unfold lookup
+  rw [List.find?_append]
+  cases h : List.find? (fun e => e.key == k') idx with
+  | some x => simp
+  | none =>
+    by_cases hk : e.key = k'
+    · simp [List.find?, hk]
+    · have h2 : (e.key == k') = false := by simp [hk]
+      simp [List.find?, h2, hk]
+
+/-- two entries of a list with pairwise different keys that have the same key are the same entry -/
+theorem eq_of_key_eq {idx : List Entry} (hn : (idx.map (·.key)).Nodup) {a b : Entry} (ha : a ∈ idx) (hb : b ∈ idx)
+    (hk : a.key = b.key) : a = b := by
+  induction idx with
+  | nil => cases ha
+  | cons x rest ih =>
+    simp only [List.map_cons, List.nodup_cons, List.mem_map, not_exists, not_and] at hn
+    rcases List.mem_cons.mp ha with ha1 | ha1
+    · rcases List.mem_cons.mp hb with hb1 | hb1
+      · rw [ha1, hb1]
+      · exact absurd (show b.key = x.key by rw [← ha1]; exact hk.symm) (hn.1 b hb1)
+    · rcases List.mem_cons.mp hb with hb1 | hb1
+      · exact absurd (show a.key = x.key by rw [← hb1]; exact hk) (hn.1 a ha1)
+      · exact ih hn.2 ha1 hb1
+
+theorem eq_of_filn_eq {idx : List Entry} (hn : (idx.map (·.filn)).Nodup) {a b : Entry} (ha : a ∈ idx) (hb : b ∈ idx)
+    (hk : a.filn = b.filn) : a = b := by
+  induction idx with
+  | nil => cases ha
+  | cons x rest ih =>
+    simp only [List.map_cons, List.nodup_cons, List.mem_map, not_exists, not_and] at hn
+    rcases List.mem_cons.mp ha with ha1 | ha1
+    · rcases List.mem_cons.mp hb with hb1 | hb1
+      · rw [ha1, hb1]
+      · exact absurd (show b.filn = x.filn by rw [← ha1]; exact hk.symm) (hn.1 b hb1)
+    · rcases List.mem_cons.mp hb with hb1 | hb1
+      · exact absurd (show a.filn = x.filn by rw [← hb1]; exact hk) (hn.1 a ha1)
+      · exact ih hn.2 ha1 hb1
+
+theorem nodup_map_filter {α : Type} (f : Entry → α) (p : Entry → Bool) {idx : List Entry} (h : (idx.map f).Nodup) :
+    ((idx.filter p).map f).Nodup :=
+  List.Nodup.sublist (List.Sublist.map f List.filter_sublist) h
+
+/-! ### the invariant -/
+
+structure Good {β : Type} (files : Nat → Option (File β)) (e : Entry) : Prop where
+  so : e.swappedOut = true
+  szpos : 0 < e.sz
+  fl : e.flags = {}
+  sane : e.t.Sane
+  small : (e.filn : Int) < filenMask
+  file : ∃ f, files e.filn = some f ∧ f.metaKey = e.key ∧ f.hdrSz ≤ e.sz ∧ f.objLen = e.sz - f.hdrSz
+
+structure UInv {β : Type} (s : Ufs β) (m : Key → Option β) : Prop where
+  keys : (s.index.map (·.key)).Nodup
+  filns : (s.index.map (·.filn)).Nodup
+  mapEq : ∀ n, n ∈ s.map ↔ ∃ e ∈ s.index, e.filn = n
+  good : ∀ e ∈ s.index, Good s.files e
+  pend : ∀ n ∈ s.pending, n ∉ s.map
+  spec : ∀ k, m k = match lookup s.index k with | none => none | some e => (s.files e.filn).map (·.payload)
+  sync : s.unlinkd = false → s.pending = []
+  ok : s.raced = false ∧ s.overflow = false
+
+theorem serve_eq {β : Type} {s : Ufs β} {m : Key → Option β} (h : UInv s m) (k : Key) : serve s k = m k := by
+  unfold serve
+  have hs := h.spec k
+  unfold lookup at hs
+  cases hl : List.find? (fun e => e.key == k) s.index with
+  | none => rw [hl] at hs; simp [hs]
+  | some e =>
+    rw [hl] at hs
+    have he := (lookup_mem (idx := s.index) (k := k) hl).1
+    obtain ⟨f, hf, hk, hle, hob⟩ := (h.good e he).file
+    simp only [hf, Option.map] at hs ⊢
+    rw [hs]
+    simp [hk, hle, hob]
+
+theorem mem_le_sum (l : List Nat) (x : Nat) (h : x ∈ l) : x ≤ l.sum := by
+  induction l with
+  | nil => cases h
+  | cons a rest ih =>
+    rcases List.mem_cons.mp h with h1 | h1
+    · subst h1; simp
+    · have := ih h1; simp; omega
+
+theorem allocate_fresh (map : List Nat) (suggest : Nat) : allocate map suggest ∉ map := by
+  unfold allocate
+  split
+  · simp only
+    split
+    · intro hm; have := mem_le_sum _ _ hm; omega
+    · assumption
+  · assumption
+
+/-- the effect of `release` when the key is indexed, in a form that covers both ways of unlinking -/
+theorem uinv_released {β : Type} {s s' : Ufs β} {m : Key → Option β} (h : UInv s m) {k : Key} {e : Entry}
+    (hl : lookup s.index k = some e)
+    (hidx : s'.index = s.index.filter (fun x => !(x.key == k)))
+    (hmap : s'.map = s.map.filter (fun n => !(n == e.filn)))
+    (hfiles : ∀ n, n ≠ e.filn → s'.files n = s.files n)
+    (hpend : ∀ n ∈ s'.pending, n ∈ s.pending ∨ n = e.filn)
+    (hsync : s'.unlinkd = false → s'.pending = [])
+    (hok : s'.raced = s.raced ∧ s'.overflow = s.overflow) :
+    UInv s' (fun x => if x = k then none else m x) := by
+  obtain ⟨hein, hek⟩ := lookup_mem hl
+  have hother : ∀ x ∈ s.index, x.key ≠ k → x.filn ≠ e.filn := by
+    intro x hx hxk hf
+    have := eq_of_filn_eq h.filns hx hein hf
+    rw [this] at hxk; exact hxk hek
+  constructor
+  · rw [hidx]; exact nodup_map_filter _ _ h.keys
+  · rw [hidx]; exact nodup_map_filter _ _ h.filns
+  · intro n
+    rw [hmap, hidx]
+    simp only [List.mem_filter, Bool.not_eq_true', beq_eq_false_iff_ne, ne_eq]
+    constructor
+    · rintro ⟨hn, hne⟩
+      obtain ⟨x, hx, hxn⟩ := (h.mapEq n).mp hn
+      refine ⟨x, ⟨hx, ?_⟩, hxn⟩
+      intro hxk
+      have := eq_of_key_eq h.keys hx hein (hxk.trans hek.symm)
+      rw [this] at hxn; exact hne hxn.symm
+    · rintro ⟨x, ⟨hx, hxk⟩, hxn⟩
+      exact ⟨(h.mapEq n).mpr ⟨x, hx, hxn⟩, by rw [← hxn]; exact hother x hx hxk⟩
+  · intro x hx
+    rw [hidx] at hx
+    simp only [List.mem_filter, Bool.not_eq_true', beq_eq_false_iff_ne, ne_eq] at hx
+    have g := h.good x hx.1
+    have hne := hother x hx.1 hx.2
+    exact ⟨g.so, g.szpos, g.fl, g.sane, g.small, by rw [hfiles _ hne]; exact g.file⟩
+  · intro n hn
+    rw [hmap]
+    simp only [List.mem_filter, Bool.not_eq_true', beq_eq_false_iff_ne, ne_eq, not_and, Decidable.not_not]
+    rcases hpend n hn with h1 | h1
+    · intro hm; exact absurd hm (h.pend n h1)
+    · intro _; exact h1
+  · intro k'
+    rw [hidx, lookup_filter]
+    by_cases hk' : k' = k
+    · simp [hk']
+    · simp only [hk', if_false]
+      have hs := h.spec k'
+      cases hl' : lookup s.index k' with
+      | none => rw [hl'] at hs; simpa using hs
+      | some x =>
+        rw [hl'] at hs
+        obtain ⟨hx, hxk⟩ := lookup_mem hl'
+        have hne := hother x hx (by rw [hxk]; exact hk')
+        simp only [hfiles _ hne]
+        exact hs
+  · exact hsync
+  · rw [hok.1, hok.2]; exact h.ok
+
+theorem uinv_release {β : Type} {s : Ufs β} {m : Key → Option β} (h : UInv s m) (k : Key) :
+    UInv (release s k) (fun x => if x = k then none else m x) ∧ lookup (release s k).index k = none
+      ∧ (release s k).suggest = s.suggest := by
+  unfold release
+  have hfind : s.index.find? (fun e => e.key == k) = lookup s.index k := rfl
+  rw [hfind]
+  cases hl : lookup s.index k with
+  | none =>
+    refine ⟨?_, hl, rfl⟩
+    have hm : m k = none := by have := h.spec k; rw [hl] at this; exact this
+    refine ⟨h.keys, h.filns, h.mapEq, h.good, h.pend, ?_, h.sync, h.ok⟩
+    intro k'
+    by_cases hk' : k' = k
+    · subst hk'; simp [hl]
+    · simp only [hk', if_false]; exact h.spec k'
+  | some e =>
+    simp only
+    unfold unlinkFile
+    by_cases hu : s.unlinkd = true
+    · simp only [hu, if_true]
+      refine ⟨uinv_released h hl rfl rfl (fun _ _ => rfl) ?_ ?_ ⟨rfl, rfl⟩, ?_, trivial⟩
+      · intro n hn
+        simp only [List.mem_append, List.mem_singleton] at hn
+        exact hn
+      · intro hf; simp at hf
+      · simp only [lookup_filter, if_true]
+    · have hu' : s.unlinkd = false := by simpa using hu
+      simp only [hu', Bool.false_eq_true, if_false]
+      refine ⟨uinv_released h hl rfl rfl ?_ ?_ ?_ ⟨rfl, rfl⟩, ?_, trivial⟩
+      · intro n hn; simp [hn]
+      · intro n hn; exact Or.inl hn
+      · intro _; exact h.sync hu'
+      · simp only [lookup_filter, if_true]
+
+theorem uinv_store {β : Type} {s : Ufs β} {m : Key → Option β} (h : UInv s m) (k : Key) (b : β) (hdrSz objLen : Nat) (t : Times)
+    (hwf : 0 < hdrSz ∧ t.Sane)
+    (hr : (storeObj s k b hdrSz objLen t).raced = false) (ho : (storeObj s k b hdrSz objLen t).overflow = false) :
+    UInv (storeObj s k b hdrSz objLen t) (fun x => if x = k then some b else m x) := by
+  obtain ⟨h1, hnone, _⟩ := uinv_release h k
+  unfold storeObj at hr ho ⊢
+  generalize release s k = s1 at h1 hnone hr ho ⊢
+  simp only at hr ho ⊢
+  have hfresh := allocate_fresh s1.map s1.suggest
+  generalize allocate s1.map s1.suggest = fn at hfresh hr ho ⊢
+  simp only [Bool.or_eq_false_iff, decide_eq_false_iff_not] at hr ho
+  have hnokey : ∀ x ∈ s1.index, x.key ≠ k := lookup_none hnone
+  have hnofn : ∀ x ∈ s1.index, x.filn ≠ fn := by
+    intro x hx hf
+    exact hfresh ((h1.mapEq fn).mpr ⟨x, hx, hf⟩)
+  constructor
+  · simp only [List.map_append, List.map_cons, List.map_nil]
+    rw [List.nodup_append]
+    refine ⟨h1.keys, by simp, ?_⟩
+    intro a ha c hc
+    simp only [List.mem_singleton] at hc
+    obtain ⟨x, hx, hxa⟩ := List.mem_map.mp ha
+    rw [hc, ← hxa]; exact hnokey x hx
+  · simp only [List.map_append, List.map_cons, List.map_nil]
+    rw [List.nodup_append]
+    refine ⟨h1.filns, by simp, ?_⟩
+    intro a ha c hc
+    simp only [List.mem_singleton] at hc
+    obtain ⟨x, hx, hxa⟩ := List.mem_map.mp ha
+    rw [hc, ← hxa]; exact hnofn x hx
+  · intro n
+    simp only [List.mem_append, List.mem_singleton]
+    constructor
+    · rintro (hn | hn)
+      · obtain ⟨x, hx, hxn⟩ := (h1.mapEq n).mp hn
+        exact ⟨x, Or.inl hx, hxn⟩
+      · exact ⟨_, Or.inr rfl, hn.symm⟩
+    · rintro ⟨x, (hx | hx), hxn⟩
+      · exact Or.inl ((h1.mapEq n).mpr ⟨x, hx, hxn⟩)
+      · subst hx; exact Or.inr hxn.symm
+  · intro x hx
+    simp only [List.mem_append, List.mem_singleton] at hx
+    rcases hx with hx | hx
+    · have g := h1.good x hx
+      have hne := hnofn x hx
+      exact ⟨g.so, g.szpos, g.fl, g.sane, g.small, by simp only [hne, if_false]; exact g.file⟩
+    · subst hx
+      refine ⟨rfl, by simp only; omega, rfl, hwf.2, ?_, ?_⟩
+      · simp only; omega
+      · refine ⟨{ metaKey := k, hdrSz := hdrSz, objLen := objLen, metaTimes := t, metaSz := 0, metaFlags := {}, metaRefcount := 1, payload := b }, by simp, rfl, ?_, ?_⟩
+        · simp only; omega
+        · simp only; omega
+  · intro n hn
+    simp only [List.mem_append, List.mem_singleton, not_or]
+    exact ⟨h1.pend n hn, fun hf => hr.2 (hf ▸ hn)⟩
+  · intro k'
+    rw [lookup_append_singleton]
+    by_cases hk' : k' = k
+    · subst hk'
+      simp [hnone]
+    · have hs := h1.spec k'
+      simp only [hk', if_false] at hs ⊢
+      cases hl' : lookup s1.index k' with
+      | none =>
+        rw [hl'] at hs
+        have : ¬ k = k' := fun hh => hk' hh.symm
+        simp [this, hs]
+      | some x =>
+        rw [hl'] at hs
+        obtain ⟨hx, _⟩ := lookup_mem hl'
+        have hne := hnofn x hx
+        simp only [hne, if_false]
+        exact hs
+  · exact h1.sync
+  · simp only [Bool.or_eq_false_iff, decide_eq_false_iff_not]
+    exact ⟨⟨hr.1, hr.2⟩, ⟨ho.1, ho.2⟩⟩
+
+theorem uinv_touch {β : Type} {s : Ufs β} {m : Key → Option β} (h : UInv s m) (k : Key) (now : Int) (hnow : minTime ≤ now) :
+    UInv (touch s k now) m := by
+  unfold touch
+  have hfind : s.index.find? (fun e => e.key == k) = lookup s.index k := rfl
+  rw [hfind]
+  cases hl : lookup s.index k with
+  | none => exact h
+  | some e =>
+    simp only
+    obtain ⟨hein, hek⟩ := lookup_mem hl
+    have hother : ∀ x ∈ s.index, x.key ≠ k → x.filn ≠ e.filn := by
+      intro x hx hxk hf
+      have := eq_of_filn_eq h.filns hx hein hf
+      rw [this] at hxk; exact hxk hek
+    constructor
+    · simp only [List.map_append, List.map_cons, List.map_nil]
+      rw [List.nodup_append]
+      refine ⟨nodup_map_filter _ _ h.keys, by simp, ?_⟩
+      intro a ha c hc
+      simp only [List.mem_singleton] at hc
+      obtain ⟨x, hx, hxa⟩ := List.mem_map.mp ha
+      simp only [List.mem_filter, Bool.not_eq_true', beq_eq_false_iff_ne, ne_eq] at hx
+      rw [hc, ← hxa, hek]; exact hx.2
+    · simp only [List.map_append, List.map_cons, List.map_nil]
+      rw [List.nodup_append]
+      refine ⟨nodup_map_filter _ _ h.filns, by simp, ?_⟩
+      intro a ha c hc
+      simp only [List.mem_singleton] at hc
+      obtain ⟨x, hx, hxa⟩ := List.mem_map.mp ha
+      simp only [List.mem_filter, Bool.not_eq_true', beq_eq_false_iff_ne, ne_eq] at hx
+      rw [hc, ← hxa]; exact hother x hx.1 hx.2
+    · intro n
+      rw [h.mapEq n]
+      simp only [List.mem_append, List.mem_filter, Bool.not_eq_true', beq_eq_false_iff_ne, ne_eq, List.mem_singleton]
+      constructor
+      · rintro ⟨x, hx, hxn⟩
+        by_cases hxk : x.key = k
+        · have := eq_of_key_eq h.keys hx hein (hxk.trans hek.symm)
+          subst this
+          exact ⟨_, Or.inr rfl, hxn⟩
+        · exact ⟨x, Or.inl ⟨hx, hxk⟩, hxn⟩
+      · rintro ⟨x, (hx | hx), hxn⟩
+        · exact ⟨x, hx.1, hxn⟩
+        · subst hx; exact ⟨e, hein, hxn⟩
+    · intro x hx
+      simp only [List.mem_append, List.mem_filter, List.mem_singleton] at hx
+      rcases hx with hx | hx
+      · exact h.good x hx.1
+      · subst hx
+        have g := h.good e hein
+        exact ⟨g.so, g.szpos, g.fl, ⟨g.sane.1, hnow, g.sane.2.2.1, g.sane.2.2.2⟩, g.small, g.file⟩
+    · exact h.pend
+    · intro k'
+      rw [lookup_append_singleton, lookup_filter]
+      have hs := h.spec k'
+      by_cases hk' : k' = k
+      · subst hk'
+        rw [hl] at hs
+        simp [hek, hs]
+      · simp only [hk', if_false]
+        cases hl' : lookup s.index k' with
+        | none =>
+          rw [hl'] at hs
+          have : ¬ e.key = k' := by rw [hek]; exact fun hh => hk' hh.symm
+          simp [this, hs]
+        | some x => rw [hl'] at hs; exact hs
+    · exact h.sync
+    · exact h.ok
+
+theorem uinv_unlinkdStep {β : Type} {s : Ufs β} {m : Key → Option β} (h : UInv s m) : UInv (unlinkdStep s) m := by
+  unfold unlinkdStep
+  split
+  · exact h
+  · rename_i fn rest hp
+    have hfn : fn ∉ s.map := h.pend fn (by rw [hp]; simp)
+    have hne : ∀ x ∈ s.index, x.filn ≠ fn := fun x hx hf => hfn ((h.mapEq fn).mpr ⟨x, hx, hf⟩)
+    constructor
+    · exact h.keys
+    · exact h.filns
+    · exact h.mapEq
+    · intro x hx
+      have g := h.good x hx
+      exact ⟨g.so, g.szpos, g.fl, g.sane, g.small, by simp only [hne x hx, if_false]; exact g.file⟩
+    · intro n hn; exact h.pend n (by rw [hp]; exact List.mem_cons_of_mem _ hn)
+    · intro k'
+      have hs := h.spec k'
+      cases hl' : lookup s.index k' with
+      | none => rw [hl'] at hs; exact hs
+      | some x =>
+        rw [hl'] at hs
+        simp only [hne x (lookup_mem hl').1, if_false]; exact hs
+    · intro hu; have := h.sync hu; rw [hp] at this; cases this
+    · exact h.ok
+
+theorem uinv_flush {β : Type} (n : Nat) {s : Ufs β} {m : Key → Option β} (h : UInv s m) :
+    UInv (unlinkdFlush s n) m ∧ ((unlinkdFlush s n).pending.length = s.pending.length - n) := by
+  induction n generalizing s with
+  | zero => exact ⟨h, by simp [unlinkdFlush]⟩
+  | succ n ih =>
+    unfold unlinkdFlush
+    have h2 := ih (uinv_unlinkdStep h)
+    refine ⟨h2.1, ?_⟩
+    rw [h2.2]
+    unfold unlinkdStep
+    split
+    · rename_i hp; simp [hp]
+    · rename_i fn rest hp; simp [hp]
+
+/-! ### clean shutdown and rebuild -/
+
+theorem canLog_of_good {β : Type} {files : Nat → Option (File β)} {e : Entry} (g : Good files e) : canLog e = true := by
+  simp [canLog, g.so, g.szpos, g.fl]
+
+theorem sane_of_good {β : Type} {files : Nat → Option (File β)} {e : Entry} (g : Good files e) :
+    (toRec SWAP_LOG_ADD e).sane = true := by
+  obtain ⟨h1, h2, h3, h4⟩ := g.sane
+  have hz : (0 : Int) ≤ (e.filn : Int) := Int.natCast_nonneg _
+  simp [Rec.sane, toRec, SWAP_LOG_NOP, SWAP_LOG_ADD, SWAP_LOG_MAX, h1, h2, h3, h4, g.szpos, hz]
+
+theorem rebuild_one {β : Type} (files : Nat → Option (File β)) (done : List Entry) (L : List Rec) (e : Entry)
+    (g : Good files e) (hk : ∀ x ∈ done, x.key ≠ e.key) (hf : ∀ x ∈ done, x.filn ≠ e.filn) :
+    rebuildFromSwapLog { index := done, map := done.map (·.filn), files := files, newLog := L } (toRec SWAP_LOG_ADD e)
+      = { index := done ++ [e], map := (done ++ [e]).map (·.filn), files := files, newLog := L ++ [toRec SWAP_LOG_ADD e] } := by
+  have hs := sane_of_good g
+  have hmod : ((e.filn : Int) % filenMask) = (e.filn : Int) := Int.emod_eq_of_lt (Int.natCast_nonneg _) g.small
+  have hnotmem : e.filn ∉ done.map (·.filn) := by
+    intro hm
+    obtain ⟨x, hx, hxe⟩ := List.mem_map.mp hm
+    exact hf x hx hxe
+  have hfind : done.find? (fun x => x.key == e.key) = none := by
+    apply List.find?_eq_none.mpr
+    intro x hx
+    simp [hk x hx]
+  have hnn : ¬ ((e.filn : Int) < 0) := by omega
+  cases e with
+  | mk key filn sz t refcount flags swappedOut =>
+    have hso : swappedOut = true := g.so
+    have hfl : flags = {} := g.fl
+    subst hso hfl
+    unfold rebuildFromSwapLog
+    simp only [hs, Bool.not_true, Bool.false_eq_true, if_false]
+    simp only [toRec] at hmod hnn ⊢
+    simp only [hmod, if_true, hnn, if_false, Int.toNat_natCast, hnotmem]
+    simp [addIfFresh, evictStaleAndContinue, hfind, toRec]
+
+theorem rebuild_fold {β : Type} (files : Nat → Option (File β)) (rest : List Entry) :
+    ∀ (done : List Entry) (L : List Rec),
+    ((done ++ rest).map (·.key)).Nodup → ((done ++ rest).map (·.filn)).Nodup → (∀ e ∈ rest, Good files e) →
+    (rest.map (toRec SWAP_LOG_ADD)).foldl rebuildFromSwapLog { index := done, map := done.map (·.filn), files := files, newLog := L }
+      = { index := done ++ rest, map := (done ++ rest).map (·.filn), files := files, newLog := L ++ rest.map (toRec SWAP_LOG_ADD) } := by
+  induction rest with
+  | nil => intro done L _ _ _; simp
+  | cons e rest ih =>
+    intro done L hk hf hg
+    simp only [List.map_cons, List.foldl_cons]
+    have hk' : ∀ x ∈ done, x.key ≠ e.key := by
+      intro x hx hxe
+      simp only [List.map_append, List.map_cons] at hk
+      have := (List.nodup_append.mp hk).2.2 x.key (List.mem_map.mpr ⟨x, hx, rfl⟩) e.key (by simp)
+      exact this hxe
+    have hf' : ∀ x ∈ done, x.filn ≠ e.filn := by
+      intro x hx hxe
+      simp only [List.map_append, List.map_cons] at hf
+      have := (List.nodup_append.mp hf).2.2 x.filn (List.mem_map.mpr ⟨x, hx, rfl⟩) e.filn (by simp)
+      exact this hxe
+    rw [rebuild_one files done L e (hg e (by simp)) hk' hf']
+    have e1 : done ++ e :: rest = (done ++ [e]) ++ rest := by simp
+    rw [ih (done ++ [e]) (L ++ [toRec SWAP_LOG_ADD e]) (by rw [← e1]; exact hk) (by rw [← e1]; exact hf)
+      (fun x hx => hg x (List.mem_cons_of_mem _ hx))]
+    simp
+
+theorem uinv_restart {β : Type} {s : Ufs β} {m : Key → Option β} (h : UInv s m) (dl : List Nat) :
+    UInv (rebuild (cleanShutdown s) dl) m := by
+  obtain ⟨h1, hlen⟩ := uinv_flush s.pending.length h
+  unfold cleanShutdown
+  generalize unlinkdFlush s s.pending.length = s1 at h1 hlen ⊢
+  have hall : s1.index.filter canLog = s1.index := by
+    apply List.filter_eq_self.mpr
+    intro e he; exact canLog_of_good (h1.good e he)
+  unfold rebuild
+  simp only [hall]
+  have hfold := rebuild_fold s1.files s1.index [] [] (by simpa using h1.keys) (by simpa using h1.filns) h1.good
+  simp only [List.map_nil, List.nil_append] at hfold
+  rw [hfold]
+  constructor
+  · exact h1.keys
+  · exact h1.filns
+  · intro n; simp [List.mem_map]
+  · exact h1.good
+  · intro n hn; simp at hn
+  · exact h1.spec
+  · intro _; rfl
+  · exact h1.ok
+
+/-! ### the first start of a freshly created cache_dir -/
+
+theorem scan_empty {β : Type} (dl : List Nat) (r : Rb β) (hf : ∀ n, r.files n = none) :
+    dl.foldl rebuildFromDirectory r = r := by
+  induction dl generalizing r with
+  | nil => rfl
+  | cons n rest ih =>
+    simp only [List.foldl_cons]
+    have : rebuildFromDirectory r n = r := by
+      unfold rebuildFromDirectory
+      split
+      · rfl
+      · simp [hf n]
+    rw [this]; exact ih r hf
+
+theorem uinv_first_start {β : Type} (unlinkd : Bool) (dl : List Nat) :
+    UInv (rebuild (Ufs.empty unlinkd : Ufs β) dl) (fun _ => none) := by
+  unfold rebuild
+  simp only [Ufs.empty]
+  rw [scan_empty dl _ (fun _ => rfl)]
+  constructor
+  · simp
+  · simp
+  · intro n; simp
+  · intro e he; simp at he
+  · intro n hn; simp at hn
+  · intro k; simp [lookup]
+  · intro _; rfl
+  · exact ⟨rfl, rfl⟩
+
+/-! ### histories -/
+
+theorem unlinkFile_flags {β : Type} (s : Ufs β) (fn : Nat) :
+    (unlinkFile s fn).raced = s.raced ∧ (unlinkFile s fn).overflow = s.overflow := by
+  unfold unlinkFile; split <;> exact ⟨rfl, rfl⟩
+
+theorem release_flags {β : Type} (s : Ufs β) (k : Key) :
+    (release s k).raced = s.raced ∧ (release s k).overflow = s.overflow := by
+  unfold release
+  split
+  · exact ⟨rfl, rfl⟩
+  · exact unlinkFile_flags _ _
+
+theorem unlinkdStep_flags {β : Type} (s : Ufs β) :
+    (unlinkdStep s).raced = s.raced ∧ (unlinkdStep s).overflow = s.overflow := by
+  unfold unlinkdStep; split <;> exact ⟨rfl, rfl⟩
+
+theorem flush_flags {β : Type} (n : Nat) (s : Ufs β) :
+    (unlinkdFlush s n).raced = s.raced ∧ (unlinkdFlush s n).overflow = s.overflow := by
+  induction n generalizing s with
+  | zero => exact ⟨rfl, rfl⟩
+  | succ n ih =>
+    unfold unlinkdFlush
+    have a := ih (unlinkdStep s)
+    have b := unlinkdStep_flags s
+    exact ⟨a.1.trans b.1, a.2.trans b.2⟩
+
+theorem restart_flags {β : Type} (s : Ufs β) (dl : List Nat) :
+    (rebuild (cleanShutdown s) dl).raced = s.raced ∧ (rebuild (cleanShutdown s) dl).overflow = s.overflow := by
+  have a := flush_flags s.pending.length s
+  exact ⟨a.1, a.2⟩
+
+theorem step_flags_mono {β : Type} (s : Ufs β) (op : Op β) :
+    (s.raced = true → (step s op).raced = true) ∧ (s.overflow = true → (step s op).overflow = true) := by
+  cases op with
+  | store k b hs n t =>
+    have a := release_flags s k
+    constructor
+    · intro h
+      show ((release s k).raced || _) = true
+      rw [a.1, h]; rfl
+    · intro h
+      show ((release s k).overflow || _) = true
+      rw [a.2, h]; rfl
+  | purge k => have a := release_flags s k; exact ⟨fun h => a.1.trans h, fun h => a.2.trans h⟩
+  | touch k now =>
+    constructor <;> intro h <;> simp only [step, touch] <;> split <;> exact h
+  | unlinkd => have a := unlinkdStep_flags s; exact ⟨fun h => a.1.trans h, fun h => a.2.trans h⟩
+  | restart dl => have a := restart_flags s dl; exact ⟨fun h => a.1.trans h, fun h => a.2.trans h⟩
+
+theorem run_flags_mono {β : Type} (ops : List (Op β)) (s : Ufs β) :
+    (s.raced = true → (run s ops).raced = true) ∧ (s.overflow = true → (run s ops).overflow = true) := by
+  induction ops generalizing s with
+  | nil => exact ⟨id, id⟩
+  | cons op rest ih =>
+    have a := step_flags_mono s op
+    have b := ih (step s op)
+    exact ⟨fun h => b.1 (a.1 h), fun h => b.2 (a.2 h)⟩
+
+theorem uinv_step {β : Type} {s : Ufs β} {m : Key → Option β} (h : UInv s m) (op : Op β) (hwf : op.Wf)
+    (hr : (step s op).raced = false) (ho : (step s op).overflow = false) : UInv (step s op) (specStep m op) := by
+  cases op with
+  | store k b hs n t => exact uinv_store h k b hs n t hwf hr ho
+  | purge k => exact (uinv_release h k).1
+  | touch k now => exact uinv_touch h k now hwf
+  | unlinkd => exact uinv_unlinkdStep h
+  | restart dl => exact uinv_restart h dl
+
+theorem uinv_run {β : Type} (ops : List (Op β)) {s : Ufs β} {m : Key → Option β} (h : UInv s m) (hwf : ∀ op ∈ ops, op.Wf)
+    (hr : (run s ops).raced = false) (ho : (run s ops).overflow = false) : UInv (run s ops) (ops.foldl specStep m) := by
+  induction ops generalizing s m with
+  | nil => exact h
+  | cons op rest ih =>
+    have hmono := run_flags_mono rest (step s op)
+    have hr1 : (step s op).raced = false := by
+      cases hx : (step s op).raced with
+      | false => rfl
+      | true => have := hmono.1 hx; simp only [run, List.foldl_cons] at hr; rw [show List.foldl step (step s op) rest = run (step s op) rest from rfl] at hr; rw [this] at hr; cases hr
+    have ho1 : (step s op).overflow = false := by
+      cases hx : (step s op).overflow with
+      | false => rfl
+      | true => have := hmono.2 hx; simp only [run, List.foldl_cons] at ho; rw [show List.foldl step (step s op) rest = run (step s op) rest from rfl] at ho; rw [this] at ho; cases ho
+    exact ih (uinv_step h op (hwf op (by simp)) hr1 ho1) (fun o ho' => hwf o (List.mem_cons_of_mem _ ho')) hr ho
+
+/-- every history keeps every URL at exactly what the history requires -/
+theorem history_preserved {β : Type} (unlinkd : Bool) (ops : List (Op β)) (dl : List Nat)
+    (hwf : ∀ op ∈ ops, op.Wf)
+    (hrace : (run (rebuild (Ufs.empty unlinkd) dl) ops).raced = false)
+    (hsmall : (run (rebuild (Ufs.empty unlinkd) dl) ops).overflow = false) (k : Key) :
+    serve (run (rebuild (Ufs.empty unlinkd) dl) ops) k = spec ops k :=
+  serve_eq (uinv_run ops (uinv_first_start unlinkd dl) hwf hrace hsmall) k
+
+/-! ### synchronous unlinks never race -/
+
+structure SyncInv {β : Type} (s : Ufs β) : Prop where
+  u : s.unlinkd = false
+  p : s.pending = []
+  r : s.raced = false
+
+theorem sync_release {β : Type} {s : Ufs β} (h : SyncInv s) (k : Key) : SyncInv (release s k) := by
+  unfold release
+  split
+  · exact h
+  · unfold unlinkFile
+    simp only [h.u, Bool.false_eq_true, if_false]
+    exact ⟨rfl, h.p, h.r⟩
+
+theorem sync_flush {β : Type} (n : Nat) {s : Ufs β} (h : SyncInv s) : unlinkdFlush s n = s := by
+  induction n with
+  | zero => rfl
+  | succ n ih =>
+    unfold unlinkdFlush
+    have : unlinkdStep s = s := by unfold unlinkdStep; simp [h.p]
+    rw [this]; exact ih
+
+theorem sync_step {β : Type} {s : Ufs β} (h : SyncInv s) (op : Op β) : SyncInv (step s op) := by
+  cases op with
+  | store k b hs n t =>
+    have h1 := sync_release h k
+    simp only [step, storeObj]
+    exact ⟨h1.u, h1.p, by simp [h1.r, h1.p]⟩
+  | purge k => exact sync_release h k
+  | touch k now => simp only [step, touch]; split <;> first | exact h | exact ⟨h.u, h.p, h.r⟩
+  | unlinkd => simp only [step, unlinkdStep]; split <;> first | exact h | (rename_i hp; rw [h.p] at hp; cases hp)
+  | restart dl =>
+    simp only [step, cleanShutdown, sync_flush _ h]
+    exact ⟨h.u, rfl, h.r⟩
+
+theorem never_raced_sync {β : Type} (ops : List (Op β)) (dl : List Nat) :
+    (run (rebuild (Ufs.empty false : Ufs β) dl) ops).raced = false := by
+  have h0 : SyncInv (rebuild (Ufs.empty false : Ufs β) dl) := ⟨rfl, rfl, rfl⟩
+  suffices ∀ (s : Ufs β), SyncInv s → SyncInv (run s ops) from (this _ h0).r
+  induction ops with
+  | nil => intro s h; exact h
+  | cons op rest ih => intro s h; exact ih _ (sync_step h op)
+
+theorem spec_append_restart {β : Type} (ops : List (Op β)) (rs : List (Op β)) (hrs : ∀ o ∈ rs, ∃ dl, o = .restart dl) (k : Key) :
+    spec (ops ++ rs) k = spec ops k := by
+  unfold spec
+  rw [List.foldl_append]
+  generalize List.foldl specStep (fun _ => none) ops = m
+  induction rs generalizing m with
+  | nil => rfl
+  | cons o rest ih =>
+    obtain ⟨dl, hdl⟩ := hrs o (by simp)
+    subst hdl
+    simp only [List.foldl_cons, specStep]
+    exact ih (fun x hx => hrs x (List.mem_cons_of_mem _ hx)) m
+
+theorem run_append {β : Type} (s : Ufs β) (a b : List (Op β)) : run s (a ++ b) = run (run s a) b := by
+  unfold run; rw [List.foldl_append]
+
+theorem restart_identity {β : Type} (unlinkd : Bool) (ops : List (Op β)) (dl dl1 dl2 : List Nat)
+    (hwf : ∀ op ∈ ops, op.Wf)
+    (hrace : (run (rebuild (Ufs.empty unlinkd) dl) ops).raced = false)
+    (hsmall : (run (rebuild (Ufs.empty unlinkd) dl) ops).overflow = false) (k : Key) :
+    serve (run (rebuild (Ufs.empty unlinkd) dl) (ops ++ [.restart dl1])) k = serve (run (rebuild (Ufs.empty unlinkd) dl) ops) k ∧
+    serve (run (rebuild (Ufs.empty unlinkd) dl) (ops ++ [.restart dl1, .restart dl2])) k = serve (run (rebuild (Ufs.empty unlinkd) dl) ops) k := by
+  have base := history_preserved unlinkd ops dl hwf hrace hsmall k
+  have wf1 : ∀ rs : List (Op β), (∀ o ∈ rs, ∃ d, o = .restart d) → ∀ op ∈ ops ++ rs, op.Wf := by
+    intro rs hrs op hop
+    rcases List.mem_append.mp hop with h1 | h1
+    · exact hwf op h1
+    · obtain ⟨d, hd⟩ := hrs op h1; subst hd; trivial
+  have r1 : ∀ o ∈ [Op.restart (β := β) dl1], ∃ d, o = .restart d := by intro o ho; simp at ho; exact ⟨dl1, ho⟩
+  have r2 : ∀ o ∈ [Op.restart (β := β) dl1, .restart dl2], ∃ d, o = .restart d := by
+    intro o ho; simp at ho; rcases ho with h1 | h1
+    · exact ⟨dl1, h1⟩
+    · exact ⟨dl2, h1⟩
+  have f1 : (run (rebuild (Ufs.empty unlinkd) dl) (ops ++ [.restart dl1])).raced = false ∧
+            (run (rebuild (Ufs.empty unlinkd) dl) (ops ++ [.restart dl1])).overflow = false := by
+    rw [run_append]
+    have a := restart_flags (run (rebuild (Ufs.empty unlinkd) dl) ops) dl1
+    exact ⟨a.1.trans hrace, a.2.trans hsmall⟩
+  have f2 : (run (rebuild (Ufs.empty unlinkd) dl) (ops ++ [.restart dl1, .restart dl2])).raced = false ∧
+            (run (rebuild (Ufs.empty unlinkd) dl) (ops ++ [.restart dl1, .restart dl2])).overflow = false := by
+    have e : ops ++ [Op.restart dl1, .restart dl2] = (ops ++ [.restart dl1]) ++ [.restart dl2] := by simp
+    rw [e, run_append]
+    have a := restart_flags (run (rebuild (Ufs.empty unlinkd) dl) (ops ++ [.restart dl1])) dl2
+    exact ⟨a.1.trans f1.1, a.2.trans f1.2⟩
+  constructor
+  · rw [history_preserved unlinkd _ dl (wf1 _ r1) f1.1 f1.2 k, spec_append_restart ops _ r1 k, base]
+  · rw [history_preserved unlinkd _ dl (wf1 _ r2) f2.1 f2.2 k, spec_append_restart ops _ r2 k, base]
+
 end SquidModel.Cache.Restart
